@@ -153,6 +153,19 @@ func VerifC16Unique() {
 	verifrt.Assert(verifrt.Implies(same, verifRandEqual()), "equal identifiers imply equal random draws (no two draws collide in the encoding)")
 }
 
+// VerifC16ManyIDs: n identifiers generated one after the other while the random
+// source never repeats itself: all n are different (a generator that recycles,
+// truncates or runs dry of its entropy shows up as a repeated identifier).
+func VerifC16ManyIDs(n int) {
+	verifrt.DistinctRandomness()
+	seen := map[string]bool{}
+	for i := 0; i < n; i++ {
+		id := generateIdentifier("req")
+		verifrt.Assert(!seen[id], "generated identifiers are unique across requests (the random source never repeating)")
+		seen[id] = true
+	}
+}
+
 // verifRandEqual is replaced by the executor's view of the two rand.Read draws.
 func verifRandEqual() bool { return verifrt.RandDrawsEqual() }
 
